@@ -91,6 +91,10 @@ attribute [z80spec] exec execOpt execMain execXY execXYtail execXYCB Spec.execut
 @[z80helper] theorem fold_ins_lo (n : U8) (v : U16) : n.setWidth 16 ||| (v &&& 0xff00#16) = mk16 (hi8 v) n := by
   unfold mk16 hi8; bits16
 
+@[z80helper] theorem fold_mk16_and_fe (h v : U8) :
+    (h.setWidth 16 <<< 8) ||| (v.setWidth 16 &&& 254#16) = mk16 h (v &&& 254#8) := by
+  unfold mk16; bits16
+
 attribute [z80helper] hi8_mk16 lo8_mk16 mk16_hi_lo hi8_inc lo8_inc hi8_dec lo8_dec
 
 @[z80helper] theorem lo8_shr8 (v : U16) : lo8 (v >>> 8) = hi8 v := rfl
